@@ -416,7 +416,7 @@ func runC06(r *Report) {
 			// through a key helper such as claimKey(code))
 			env := map[*ssa.Parameter]string{}
 			for _, pp := range cf.Params {
-				if pp.Name() == "code" {
+				if canonParamName(pp) == "code" {
 					env[pp] = "\x00CODE\x00"
 				}
 			}
